@@ -141,3 +141,16 @@ claim("C17", category="model_checking", engine="arraymc",
            "a limit too small for the data must give a clean refusal that leaves C06 intact.",
       note="limits come from the tool's own test seam; <=2 data disks",
       design="3 C17")
+
+claim("C19", category="model_checking", engine="arraymc",
+      technique="exhaustive enumeration of a decoy scenario matrix on the real CLI with independent hash / parity / version oracles",
+      text="All combinations of look-alike location (other disk same path, other disk other directory, same disk other directory; thorough also "
+           "other name) x zero / non-zero sub-second stamp (path-stamp vs name-stamp rule) x {true copy, decoy differing in the first / last "
+           "(thorough middle) block} x source {fully, partially} hashed x {sync, sync -h, sync -N} (thorough x 1,2 levels). After the sync: no block "
+           "is recorded synced unless its recorded hash is the independent hash of its own bytes and the C06 oracle holds; a decoy taken for a copy "
+           "must produce an error, with -h the parity files must be byte-identical, with -N no copy may be detected, a partially hashed source must "
+           "not donate hashes. Then the original is lost (alone, and with all parity) and fix / fix -i <dir holding decoys and a true copy> run "
+           "with the decoy still in the array: every recorded file ends with bytes matching its recorded hashes or is reported unrecoverable (C05's "
+           "oracle), never decoy bytes under the original's identity.",
+      note="inode-keeping moves are trusted by design; hash size 16",
+      design="3 C19")
